@@ -36,7 +36,7 @@ sys.path.insert(0, os.path.dirname(os.path.abspath(__file__)))
 import c2lean as C
 from c2lean import Unsupported, lname, walk
 
-SOURCES = ['lltdWire.c', 'lltdTlvOps.c']
+SOURCES = ['lltdWire.c', 'lltdTlvOps.c', 'lltdAutomata.c']
 # translated when defined in one of SOURCES (or, for the inline helpers, in a header they include)
 HELPERS = ['lltd_bswap16', 'lltd_bswap32', 'lltd_is_little_endian', 'lltd_htons', 'lltd_ntohs', 'lltd_htonl', 'lltd_ntohl']
 WANTED = {
@@ -45,7 +45,12 @@ WANTED = {
                      'setSupportInfoTLV', 'setFriendlyNameTLV', 'setUuidTLV', 'setHardwareIdTLV', 'setQosCharacteristicsTLV',
                      'setEndOfPropertyTLV', 'setPhysicalMediumTLV', 'setIPv4TLV', 'setIPv6TLV', 'setLinkSpeedTLV',
                      'setWirelessTLV', 'setBSSIDTLV', 'setSSIDTLV', 'setWifiMaxRateTLV', 'setWifiRssiTLV', 'set80211MediumTLV'],
+    'lltdAutomata.c': ['derive_session_event'],
 }
+# calls answered by the ENVIRONMENT instead of being translated here (tools/c2lean.py translates them with structs by value):
+# name -> (size-of-result struct name).  The oracle gets the scalar arguments and, for a pointer argument, the bytes from that address on;
+# it returns NULL (`none`) or the object representation of the struct the returned pointer points to.
+ORACLES = {'session_table_find': 'session_entry'}
 
 
 def q(t):
@@ -56,7 +61,7 @@ class Layout:
     """sizeof / offsetof as the compiler computes them for the working tree's headers (probe compiled and run)"""
     def __init__(self, repo, records, flags):
         core = os.path.join(repo, 'lltdResponder')
-        lines = ['#include <stdio.h>', '#include <stddef.h>', '#include <stdint.h>', '#include "lltdProtocol.h"', 'int main(void){']
+        lines = ['#include <stdio.h>', '#include <stddef.h>', '#include <stdint.h>', '#include "lltdProtocol.h"', '#include "lltdAutomata.h"', 'int main(void){']
         for name, fields in sorted(records.items()):
             lines.append('printf("S %s %%zu\\n", sizeof(%s));' % (name, name))
             for f in fields:
@@ -98,6 +103,10 @@ class Fn:
         self.frozen = set()       # variables a symbolic pointer reads
         self.pre = []             # state updates hoisted out of the expression being translated
         self.ntemp = 0
+        self.loopvars = {}        # C name of a `for` counter -> kind (rendered as the Lean variable of the loop body)
+        self.optptrs = {}         # pointer local that may be NULL and points to an oracle's result -> struct name
+        self.oracles = set()
+        self.in_loop = 0
         self.params = []
         self.calls = set()
         self.getters = set()
@@ -147,6 +156,8 @@ class Fn:
                     nm = m['referencedDecl']['name']
                     if nm in self.ptrs:
                         return self.ptrs[nm]
+                    if nm in self.optptrs:
+                        return Ptr(nm, '0', ('struct', self.optptrs[nm]))
                     if nm in self.regions and self.regions[nm][0] == 'param':
                         return Ptr(nm, '0', C.kind_of(q(m['type'])[:-1].strip()) if q(m['type']).endswith('*') else ('void',))
                 self.fail('pointer read from an object that is not a pointer local / parameter')
@@ -196,6 +207,8 @@ class Fn:
             return self.place(n['inner'][0])
         if k == 'DeclRefExpr':
             nm = n['referencedDecl']['name']
+            if nm in self.loopvars:
+                return ('loop:' + nm, '0', self.loopvars[nm])
             if nm in self.scalars:
                 return ('var:' + nm, '0', self.scalars[nm])
             if nm in self.regions and self.regions[nm][0] == 'local':
@@ -223,7 +236,7 @@ class Fn:
             if lit.get('kind') == 'IntegerLiteral':
                 t = lit['value']
             elif kd[0] != 'u':
-                self.fail('signed array index')
+                t = '(Int.toNat %s)' % t          # a negative index is out of the model (reads nothing sensible); counters are unsigned here
             sz = self.sizeof_kind(p.pointee)
             return (p.region, '(%s + %s)' % (p.off, t if sz == 1 else '%s * %d' % (t, sz)), p.pointee)
         self.fail('lvalue of kind %s' % k)
@@ -241,6 +254,9 @@ class Fn:
             return '(CSem.le %d %s)' % (kd[1] // 8 if kd[0] != 'b' else 1, v)
         return 's.%s' % lname(reg)
 
+    def is_const_region(self, reg):
+        return reg in self.optptrs or (reg in self.regions and self.regions[reg][2])
+
     def store_bytes(self, reg, off, bs):
         """state update writing the byte list `bs` at `off` of a region"""
         if reg.startswith('var:'):
@@ -254,7 +270,9 @@ class Fn:
             if kd[0] == 'b':
                 raw = '(%s != 0)' % raw
             return '{ s with %s := %s }' % (lname(nm), raw)
-        if reg in self.regions and self.regions[reg][2]:
+        if reg.startswith('loop:'):
+            self.fail('write to the loop counter')
+        if self.is_const_region(reg):
             self.fail('write into the const object %s' % reg)
         return '{ s with %s := CSem.wr s.%s %s %s }' % (lname(reg), lname(reg), off, bs)
 
@@ -268,6 +286,8 @@ class Fn:
         self.fail('object representation of %r' % (kd,))
 
     def load(self, reg, off, kd):
+        if reg.startswith('loop:'):
+            return (lname(reg[5:]), kd)
         if reg.startswith('var:') and off == '0' and kd == self.scalars[reg[4:]]:
             return ('s.%s' % lname(reg[4:]), kd)
         if kd[0] in ('u', 's', 'b'):
@@ -351,9 +371,10 @@ class Fn:
                     a = '(if %s then 1 else 0)' % a if ka[0] == 'b' else a
                     b = '(if %s then 1 else 0)' % b if kb[0] == 'b' else b
                 lop = {'==': '==', '!=': '!='}.get(op)
+                ty = 'Int' if 's' in (ka[0], kb[0]) else 'Nat'
                 if lop:
-                    return ('(%s %s %s)' % (a, lop, b), ('b', 1))
-                return ('(decide (%s %s %s))' % (a, {'<': '<', '>': '>', '<=': '≤', '>=': '≥'}[op], b), ('b', 1))
+                    return ('((%s : %s) %s %s)' % (a, ty, lop, b), ('b', 1))
+                return ('(decide ((%s : %s) %s %s))' % (a, ty, {'<': '<', '>': '>', '<=': '≤', '>=': '≥'}[op], b), ('b', 1))
             kd = C.kind_of(n['type'])
             if kd[0] == 's' and op in ('|', '&', '<<', '>>'):
                 # signed bit operations: only on non-negative operands are they what Nat computes; keep them in Int via toNat
@@ -377,6 +398,19 @@ class Fn:
         self.fail('expression of kind %s' % k)
 
     def boolean(self, n):
+        m = n
+        while m.get('kind') in ('ParenExpr',) or (m.get('kind') == 'ImplicitCastExpr' and m.get('castKind') in ('LValueToRValue', 'NoOp', 'PointerToBoolean')):
+            m = m['inner'][0]
+        if C.kind_of(m['type'])[0] == 'ptr' if 'type' in m else False:
+            if m.get('kind') == 'DeclRefExpr':
+                nm = m['referencedDecl']['name']
+                if nm in self.optptrs:
+                    return 's.%s_nn' % lname(nm)
+                if nm in self.regions and self.regions[nm][0] == 'param':
+                    return 'true'          # pointer parameters are assumed non-NULL (the NULL paths are C18's business)
+                if nm == 'table':
+                    return 'true'
+            self.fail('truth value of a pointer expression')
         t, kd = self.expr(n)
         if kd[0] == 'b':
             return t
@@ -447,13 +481,17 @@ class Fn:
             if rk[0] == 'u':
                 return ('(env.%s.retN %% %d)' % (g, 2 ** rk[1]), rk)
             self.fail('return type of %s' % name)
-        # another translated function: scalar arguments only
+        # another translated function: scalar arguments, and pointers to const objects (passed as the bytes from that address on)
         f = self.tr.fn(name)
-        if f.regions_params():
-            self.fail('call of %s, which takes pointers' % name)
+        if any(not f.regions[p][2] for p in f.regions_params()):
+            self.fail('call of %s, which may write through a pointer' % name)
         self.calls.add(name)
         ts = []
         for a, (pn, pk) in zip(args, f.params):
+            if pk[0] == 'region':
+                pa = self.ptr(a)
+                ts.append('(List.drop %s %s)' % (pa.off, self.region_bytes(pa.region)))
+                continue
             t, kd = self.expr(a)
             if kd != pk:
                 self.fail('argument of %s: %r for %r' % (name, kd, pk))
@@ -526,6 +564,18 @@ class Fn:
             lines += ['  ' + l for l in a] + ['  s)', 'else (']
             lines += ['  ' + l for l in b] + ['  s)']
             return
+        if k == 'BreakStmt':
+            if not self.in_loop:
+                self.fail('break outside a loop')
+            lines.append('let s := { s with brk := true }')
+            return
+        if k == 'ForStmt':
+            self.for_stmt(n, lines)
+            return
+        if k == 'BinaryOperator' and n.get('opcode') == '=' and C.strip(n['inner'][0]).get('kind') == 'DeclRefExpr' and \
+                C.strip(n['inner'][0])['referencedDecl']['name'] in self.optptrs:
+            self.assign_optptr(C.strip(n['inner'][0])['referencedDecl']['name'], n['inner'][1], lines)
+            return
         if k == 'BinaryOperator' and n.get('opcode') == '=':
             lhs, rhs = n['inner']
             reg, off, kd = self.place(lhs)
@@ -567,10 +617,104 @@ class Fn:
             self.fail('expression statement')
         self.fail('statement of kind %s' % k)
 
+    def is_null(self, n):
+        while n.get('kind') in ('ParenExpr', 'ImplicitCastExpr', 'CStyleCastExpr'):
+            n = n['inner'][0]
+        return n.get('kind') == 'IntegerLiteral' and int(n['value']) == 0
+
+    def assign_optptr(self, nm, rhs, lines):
+        m = rhs
+        while m.get('kind') in ('ParenExpr', 'ImplicitCastExpr', 'CStyleCastExpr'):
+            m = m['inner'][0]
+        if self.is_null(rhs):
+            lines.append('let s := { s with %s := ([] : List Nat), %s_nn := false }' % (lname(nm), lname(nm)))
+            return
+        if m.get('kind') != 'CallExpr' or self.callee(m) not in ORACLES or ORACLES[self.callee(m)] != self.optptrs[nm]:
+            self.fail('assignment to the pointer %s' % nm)
+        name = self.callee(m)
+        proto = self.tr.protos.get(name) or self.tr.fns.get(name)
+        pnames = [p.get('name', '') for p in proto.get('inner', []) if p.get('kind') == 'ParmVarDecl']
+        ts = []
+        for pn, a in zip(pnames, m['inner'][1:]):
+            ak = C.kind_of(a['type'])
+            if ak[0] == 'ptr':
+                if pn == 'table':
+                    continue              # the table itself is the oracle's business
+                pa = self.ptr(a)
+                ts.append('(List.drop %s %s)' % (pa.off, self.region_bytes(pa.region)))
+            else:
+                t, kd = self.expr(a)
+                if kd[0] != 'u':
+                    self.fail('oracle argument of kind %r' % (kd,))
+                ts.append(t)
+        self.flush(lines)
+        self.oracles.add((name, len(ts)))
+        call = '(env.%s %s)' % (name, ' '.join(ts))
+        lines.append('let s := { s with %s := (%s).getD [], %s_nn := (%s).isSome }' % (lname(nm), call, lname(nm), call))
+
+    def for_stmt(self, n, lines):
+        inner = n['inner']
+        if len(inner) != 5:
+            self.fail('for statement shape')
+        init, _, cond, inc, body = inner
+        if init.get('kind') != 'DeclStmt' or len(init['inner']) != 1 or init['inner'][0].get('kind') != 'VarDecl':
+            self.fail('for: the counter must be declared in the statement')
+        v = init['inner'][0]
+        nm, kd = v['name'], C.kind_of(v['type'])
+        if kd[0] != 'u':
+            self.fail('for: counter of kind %r' % (kd,))
+        i0 = [c for c in v.get('inner', []) if isinstance(c, dict)]
+        lit = C.strip(i0[0]) if i0 else {}
+        while lit.get('kind') == 'ImplicitCastExpr':
+            lit = C.strip(lit['inner'][0])
+        if lit.get('kind') != 'IntegerLiteral':
+            self.fail('for: the counter must start at a constant')
+        start = int(lit['value'])
+        # condition  i < bound
+        def unwrap(x):
+            while x.get('kind') in ('ParenExpr', 'ImplicitCastExpr'):
+                x = x['inner'][0]
+            return x
+        if cond.get('kind') != 'BinaryOperator' or cond.get('opcode') != '<' or unwrap(cond['inner'][0]).get('kind') != 'DeclRefExpr' or \
+                unwrap(cond['inner'][0])['referencedDecl']['name'] != nm:
+            self.fail('for: condition must be `counter < bound`')
+        bx = unwrap(cond['inner'][1])
+        if bx.get('kind') != 'DeclRefExpr' or bx['referencedDecl']['name'] not in self.scalars:
+            self.fail('for: the bound must be a scalar local')
+        bname = bx['referencedDecl']['name']
+        bk = self.scalars[bname]
+        if bk[0] != 'u' or bk[1] > kd[1]:
+            self.fail('for: bound wider than the counter (the counter could wrap)')
+        if inc.get('kind') != 'UnaryOperator' or inc.get('opcode') != '++' or unwrap(inc['inner'][0])['referencedDecl']['name'] != nm:
+            self.fail('for: increment must be counter++')
+        acc = set()
+        self.assigned(body, acc)
+        if nm in acc or bname in acc:
+            self.fail('for: the body assigns the counter or the bound')
+        if self.may_return(body):
+            self.fail('for: return inside the loop')
+        self.loopvars[nm] = kd
+        self.in_loop += 1
+        b = []
+        self.stmt(body, b)
+        self.in_loop -= 1
+        del self.loopvars[nm]
+        self.flush(lines)
+        lines.append('let s := CSem.loopRange %d s.%s (fun %s s => if s.brk then s else (' % (start, lname(bname), lname(nm)))
+        lines += ['  ' + l for l in b] + ['  s)) s', 'let s := { s with brk := false }']
+
     def decl_var(self, v, lines):
         nm = v['name']
         kd = C.kind_of(v['type'])
         init = [c for c in v.get('inner', []) if isinstance(c, dict) and c.get('kind') not in (None,) and 'Attr' not in c.get('kind', '')]
+        if kd[0] == 'ptr' and C.kind_of(kd[1]) [0] == 'struct' and C.kind_of(kd[1])[1] in ORACLES.values():
+            self.optptrs[nm] = C.kind_of(kd[1])[1]
+            self.add(lname(nm), 'List Nat', '[]')
+            self.add(lname(nm) + '_nn', 'Bool', 'false')
+            if not init:
+                self.fail('pointer %s without initialiser' % nm)
+            self.assign_optptr(nm, init[0], lines)
+            return
         if kd[0] == 'ptr':
             if not init:
                 self.fail('pointer %s without initialiser' % nm)
@@ -637,13 +781,16 @@ class Fn:
             return self.value_bytes(t, kd)
         self.fail('initialiser for %r' % (kd,))
 
+    def may_break(self, n):
+        return self.in_loop and any(m.get('kind') == 'BreakStmt' for m in walk(n))
+
     def block(self, stmts, lines):
         for i, st in enumerate(stmts):
             self.stmt(st, lines)
-            if self.may_return(st) and i + 1 < len(stmts):
+            if (self.may_return(st) or self.may_break(st)) and i + 1 < len(stmts):
                 rest = []
                 self.block(stmts[i + 1:], rest)
-                lines.append('if s.done then s else')
+                lines.append('if s.done || s.brk then s else')
                 lines += rest
                 return
 
@@ -684,7 +831,7 @@ class Fn:
         out = ['structure %s.S where' % lname(self.name)]
         for nm, ty, _ in self.fields:
             out.append('  %s : %s' % (nm, ty))
-        out += ['  ret : %s' % rt[0], '  done : Bool', 'deriving Repr, DecidableEq', '']
+        out += ['  ret : %s' % rt[0], '  done : Bool', '  brk : Bool', 'deriving Repr, DecidableEq', '']
         ps = ' '.join('(%s : %s)' % (lname(nm), 'List Nat' if kd[0] == 'region' else {'u': 'Nat', 's': 'Int', 'b': 'Bool'}[kd[0]])
                       for nm, kd in self.params)
         out.append('def %s (env : Env)%s : %s.S :=' % (lname(self.name), (' ' + ps) if ps else '', lname(self.name)))
@@ -692,7 +839,7 @@ class Fn:
         pn = [lname(nm) for nm, _ in self.params]
         for nm, ty, init in self.fields:
             inits.append('%s := %s' % (nm, nm if nm in pn else init))
-        out.append('  let s : %s.S := { %s }' % (lname(self.name), ', '.join(inits + ['ret := %s' % rt[1], 'done := false'])))
+        out.append('  let s : %s.S := { %s }' % (lname(self.name), ', '.join(inits + ['ret := %s' % rt[1], 'done := false', 'brk := false'])))
         out += ['  ' + l for l in self.lines]
         out += ['  s', '']
         return out
@@ -777,7 +924,7 @@ class Translator:
             self.load(src)
         recs = {k: v for k, v in self.records.items() if re.match(r'^[A-Za-z_]\w*$', k) and k in C.TYPEDEFS or k in self.records}
         # only typedef'd records of lltdProtocol.h can be named in the probe
-        hdr = open(os.path.join(self.repo, 'lltdResponder', 'lltdProtocol.h')).read()
+        hdr = open(os.path.join(self.repo, 'lltdResponder', 'lltdProtocol.h')).read() + open(os.path.join(self.repo, 'lltdResponder', 'lltdAutomata.h')).read()
         named = {k: v for k, v in recs.items() if re.search(r'\}\s*(__attribute__\s*\(\(.*?\)\)\s*)?%s\s*;' % re.escape(k), hdr)}
         self.layout = Layout(self.repo, named, self.flags)
         for key in list(self.field_kind):
@@ -808,6 +955,8 @@ class Translator:
                'structure Env where', '  uninit : Nat → List Nat']
         for g in getters:
             out.append('  %s : PortOut' % g)
+        for name, nargs in sorted(set().union(*[self.cache[nm].oracles for nm in order])):
+            out.append('  %s : %s → Option (List Nat)' % (name, ' → '.join(['List Nat' if i == 0 else 'Nat' for i in range(nargs)])))
         out.append('')
         for nm in order:
             out += self.cache[nm].emit()
